@@ -120,6 +120,10 @@ def run(rep, tier):
     for k in range(400 * scale):
         c = gen_case(r, k)
         kw = dict(mask=c['mask'], border_width=c['border'], npeaks=c['npeaks'])
+        if c['mask'] is not None and k % 5 == 2:
+            # the same mask as a 0/1 integer array or a nested list (F77: `~mask` of an integer array masks nothing)
+            kw['mask'] = c['mask'].astype([np.uint8, np.int64][(k // 5) % 2]) if (k // 10) % 2 else c['mask'].tolist()
+            rep.count('find_peaks: mask given as integers / list')
         if c['footprint'] is not None:
             kw['footprint'] = c['footprint']
         else:
@@ -197,6 +201,7 @@ def run(rep, tier):
                 if nb <= 3:
                     rep.tie_broken('Lean find_peaks model and implementation disagree', {'op': ln[:300], 'model': o, 'impl': e})
     starfinders(rep, drv, r, 16 * scale)
+    edge_padding_probe(rep, r, 6 * scale)
     centroid_refine(rep, r, 10 * scale)
     exclude_border_probe(rep, r, 8 * scale)
     separation_symmetry_probe(rep, r, 12 * scale)
@@ -267,6 +272,43 @@ def corpus_nonpositive_convolved_peak(rep):
             rep.violation(f'starfinder-nonfinite:{col}:DAOStarFinder', f'DAOStarFinder: the returned table has a non-finite `{col}` '
                           f'({[float(v) for v in np.asarray(tbl[col], float)]}; fluxes {[float(v) for v in tbl["flux"]]})',
                           {'finder': 'DAOStarFinder', 'corpus': 'F76', 'seed': 26, 'xycoords': xyc.tolist()})
+
+
+def edge_padding_probe(rep, r, n):
+    """stars whose centre is less than a kernel radius from the image edge (exclude_border=False, the default): the finders treat the
+    outside of the image as zeros, so padding the image with zeros changes nothing but the coordinates (seed C14-r13 filled the
+    cut-outs of IRAFStarFinder with NaN outside the image: sources near the edge silently disappeared)"""
+    from photutils.detection import DAOStarFinder, IRAFStarFinder
+    for k in range(n):
+        ny, nx = r.randint(24, 32), r.randint(24, 32)
+        yy, xx = np.mgrid[0:ny, 0:nx]
+        img = np.zeros((ny, nx))
+        cents = [(r.uniform(0.8, 2.2), r.uniform(6, ny - 7)), (r.uniform(6, nx - 7), ny - 1 - r.uniform(0.8, 2.2)), (nx / 2 + r.uniform(-2, 2), ny / 2 + r.uniform(-2, 2))]
+        if abs(cents[0][1] - cents[2][1]) < 6 and abs(cents[0][0] - cents[2][0]) < 6:
+            continue
+        for (cx, cy) in cents:
+            img += r.uniform(60, 120) * np.exp(-((xx - cx) ** 2 + (yy - cy) ** 2) / (2 * 1.1 ** 2))
+        img = np.round(img * 64) / 64
+        pad = 6
+        big = np.pad(img, pad)
+        for name, mk in (('IRAFStarFinder', lambda: IRAFStarFinder(threshold=3.0, fwhm=2.6, roundlo=-2.0, roundhi=2.0, sharplo=-5.0, sharphi=5.0)),
+                         ('DAOStarFinder', lambda: DAOStarFinder(threshold=3.0, fwhm=2.6, roundlo=-5.0, roundhi=5.0, sharplo=-5.0, sharphi=5.0))):
+            with warnings.catch_warnings():
+                warnings.simplefilter('ignore')
+                try:
+                    t0, t1 = mk()(img), mk()(big)
+                except Exception as e:                              # noqa: BLE001
+                    rep.violation(f'starfinder-raises:{name}', f'{name} raised {e!r} on an image with a star near the edge', {'finder': name, 'data': img.tolist()})
+                    continue
+            rep.case(('edge-pad', name, img.tobytes()), True, kind=f'{name}:edge-padding')
+            rep.probe_only += 1
+            a = sorted((round(float(x), 6), round(float(y), 6), float(f)) for x, y, f in zip(t0['xcentroid'], t0['ycentroid'], t0['flux'])) if t0 is not None else []
+            b = sorted((round(float(x) - pad, 6), round(float(y) - pad, 6), float(f)) for x, y, f in zip(t1['xcentroid'], t1['ycentroid'], t1['flux'])
+                       if -0.5 <= x - pad <= nx - 0.5 and -0.5 <= y - pad <= ny - 0.5) if t1 is not None else []
+            same = len(a) == len(b) and all(abs(p[0] - q_[0]) < 1e-5 and abs(p[1] - q_[1]) < 1e-5 and abs(p[2] - q_[2]) <= 1e-9 * max(1, abs(p[2])) for p, q_ in zip(a, b))
+            if not same:
+                rep.violation(f'starfinder-edge-padding:{name}', f'{name}: {len(a)} sources {a} on the image, but {len(b)} sources {b} (coordinates shifted back) inside the same frame '
+                              'after padding the image with 6 zero pixels on every side', {'finder': name, 'threshold': 3.0, 'fwhm': 2.6, 'pad': pad, 'data': img.tolist()})
 
 
 def starfinders(rep, drv, r, n):
